@@ -344,6 +344,10 @@ func cases(c *core.Ctx) []tcase {
 }
 
 func run(c *core.Ctx) {
+	// generic checks (lg.Independence): every World.Run below validates the
+	// same objects three times (verdict / quantities must not change) and
+	// re-runs rejected transactions in other presentations (map key order)
+	lg.EnableChecks(c)
 	// pre-flight: the balanced in-range token transaction is accepted
 	for _, sh := range shapes {
 		w, s, _ := build(tcase{sh, "inrange", big.NewInt(7), formNatural, 1, false})
